@@ -100,6 +100,26 @@ func interfSweep() []string {
 	return interfSweepSnips
 }
 
+// interfSweepRotated: the same sweep with the argument shapes of every name rotated by r and,
+// for odd r, reversed: all the calls of one name run in ONE earlier interpreter, so for a
+// setting the LAST successful call wins — every shape gets to be last in some variant.
+func interfSweepRotated(r int) []string {
+	n := len(interfArgShapes)
+	var out []string
+	for _, name := range interfCallable() {
+		var lines []string
+		for i := 0; i < n; i++ {
+			k := (i + r) % n
+			if r%2 == 1 {
+				k = (n - 1 - i + r) % n
+			}
+			lines = append(lines, "("+name+interfArgShapes[k]+")")
+		}
+		out = append(out, strings.Join(lines, "\n"))
+	}
+	return out
+}
+
 // interfBattery: observation programs (deterministic, no random/time/pointers).
 func interfBattery() []string {
 	return append(interfGeneralBattery(), interfRegistryBattery()...)
@@ -159,7 +179,6 @@ func interfPrograms(g *Gen) []string {
 		`(def h (zqrecord a:1 b:2)) (str h) (togo (snoopy cry:"x")) (def hellcat 5)`,
 		`(def o (vouter tag:"t" in:(vinner x:7 s:"q"))) (togo o) (_method o Self:) (hset o tag: "changed")`,
 		`(def x (arrayOf int64 3)) (def y (sliceOf string)) (def p (& x)) (def z (unjson (raw "{\"zqa\":1, \"car\":2, \"Atype\":\"zqdecoded\"}")))`,
-		`(pretty true) (echo true) (def big (hash a:[1 2 3] b:(hash c:1))) (println big) (rmsym (quote big))`,
 		`(gensym) (gensym) (gensym "p") (str2sym "zqlate") (str2sym "zzq") (for [(def i 0) (< i 50) (def i (+ i 1))] (gensym))`,
 	}
 	for _, kp := range detGenerated(g, 12) {
@@ -406,10 +425,21 @@ func interfGen(g *Gen) {
 		sweepPs = append([]string{strings.Join(merged, " ")}, sweepPs...)
 		sweepPs = append(sweepPs, interfRegistryBattery()...)
 	}
-	for _, p := range sweepPs {
+	for i, p := range sweepPs {
+		sw := sweep
+		if !g.Thorough() {
+			sw = interfSweepRotated(i)
+		}
 		for c := 0; c < nchunk; c++ {
-			lo, hi := c*len(sweep)/nchunk, (c+1)*len(sweep)/nchunk
-			emit("all-builtins-x-argument-shapes", p, sweep[lo:hi])
+			lo, hi := c*len(sw)/nchunk, (c+1)*len(sw)/nchunk
+			emit("all-builtins-x-argument-shapes", p, sw[lo:hi])
+		}
+	}
+	if !g.Thorough() {
+		// the widest observer once more after the sweep in the opposite order (what was set last
+		// is now set first) and in two further rotations
+		for _, r := range []int{1, 4, 7} {
+			emit("all-builtins-x-argument-shapes", sweepPs[0], interfSweepRotated(r))
 		}
 	}
 	// whole programs in the earlier interpreters
